@@ -174,8 +174,8 @@ Proof. exact body_subject_reading_refuted. Qed.
 
 (* ---------------------------------------------------------------- non-vacuity *)
 Definition idp0 : idp :=
-  {| srv := srv0; clients := [ {| cl_id := b "clientA"; cl_secret := b "secretA" |};
-                               {| cl_id := b "clientB"; cl_secret := [] |} ] |}.
+  {| srv := srv0; clients := [ {| cl_id := b "clientA"; cl_secret := b "secretA"; cl_allow_aud := false |};
+                               {| cl_id := b "clientB"; cl_secret := []; cl_allow_aud := false |} ] |}.
 
 Definition treq0 (code : token) : treq :=
   {| tr_post := true; tr_grant := gt_authcode; tr_redirect := b "https://a.example/cb"; tr_code := code;
